@@ -11,7 +11,7 @@ NOT_APPLICABLE = {
     "C04": "statistical claim (expected FDP over a distribution of datasets under exchangeability): not expressible "
            "as a single-run function contract; its structural premises are decided under C01/C02/C03 (DESIGN.md 5)",
 }
-for _p in ["C01", "C02", "C03", "C05", "C06", "C07", "C08", "C09", "C11", "C12", "C14", "C15", "C16", "C17",
+for _p in ["C01", "C02", "C03", "C05", "C06", "C08", "C09", "C11", "C14", "C15", "C16", "C17",
            "C18", "C20"]:
     NOT_APPLICABLE[_p] = _PENDING
 
@@ -59,5 +59,34 @@ CHECKS = {
                 "by the bounded run; file objects as line sequences with a cursor",
         "technique": "sidecar contracts on the real functions; VCs from the current ast; z3/cvc5; exhaustive small "
                      "texts as bounded stand-in",
+    },
+    "C07": {
+        "category": "other",
+        "text": "Deductive core + bounded stand-in. Proved for all inputs (unbounded): dataset.update_labels - the "
+                "accepted-target count brew compares with the best feature is the C01 label rule applied to GENUINE "
+                "targets (label == 1 / True) for integer (1/-1, 1/0) and bool label columns, through the verified "
+                "contract of utils.convert_targets_column and the assumed reader contract. Bounded (not proof): brew "
+                "with estimators that cannot learn, three label encodings, both feature directions, Parquet and text; "
+                "direction handling of assign_confidence. Three bounded findings (direction ignored, best_feat values, "
+                "NaN scores from a constant estimator) are listed in known_findings.json.",
+        "design_ref": "DESIGN.md 4.C07",
+        "note": "reader contract assumed (read(columns=[c]) returns column c of the file); DataFrame modelled as "
+                "abstract frame with int/bool column views; the comparison block of brew is bounded-only",
+        "technique": "sidecar contracts on the real functions; modular call of verified callee contracts; z3/cvc5; "
+                     "bounded end-to-end runs",
+    },
+    "C12": {
+        "category": "other",
+        "text": "Deductive core + bounded stand-in. Proved for all inputs (unbounded): the training block of "
+                "Model.fit as a block contract with a ghost row map - after the optional shuffle position j of the "
+                "feature matrix and of the label vector hold the same PSM; at every label update the score at "
+                "position i is the score of dataset row i; the estimator gets one label per sample row - for shuffle "
+                "on and off, every permutation and every iteration count. Bounded (not proof): recording estimators "
+                "through fit/predict/save/load, row and feature-column permutations.",
+        "design_ref": "DESIGN.md 4.C12",
+        "note": "estimator scoring assumed row-wise (est_score), Generator.permutation / argsort-of-permutation "
+                "assumed; scaler, hyper-parameter search and persistence are bounded-only",
+        "technique": "block contract with ghost statements at anchors of the real function; VCs from the current "
+                     "ast; z3/cvc5; recording-estimator runs as bounded stand-in",
     },
 }
